@@ -234,7 +234,12 @@ class StdioClient:
                 logger.debug(
                     f"Processing batch with {len(data)} messages (protocol: {self.batch_processor.protocol_version})"
                 )
-                for item in data:
+                for n_item, item in enumerate(data):
+                    # (a line can be an array of millions of members: walking it
+                    # must not keep the rest of the program - and a pending
+                    # cancellation - waiting, see _stdout_reader)
+                    if n_item % 64 == 63:
+                        await anyio.lowlevel.checkpoint()
                     try:
                         # Import parse_message to handle unions properly
                         from chuk_mcp.protocol.messages.json_rpc_message import (
